@@ -1,3 +1,4 @@
+import re
 """Shared helpers for the TypeScript-side rules (runtime class family of codegen-v2.ts)."""
 import tsast
 from tsast import walk, walk_no_nested_fn, s, method_call, unparen
@@ -1037,3 +1038,115 @@ def key_count_rule(cx, rep, rid, methods=("validate", "parseAfterValidation", "r
                "positive control: canary/ts/cardinality.ts must yield exactly the CountingRuntype match (got %s)" % sorted(chits), "canary/ts/cardinality.ts")
     except Exception as e:
         rep.ob(rid, "control/canary-cardinality", False, "positive control could not be evaluated: %s" % e, "canary/ts/cardinality.ts")
+
+
+# ---------------------------------------------------------------------------------------------------------------
+# implicit string conversion of values of unknown type (C03.16 = C12.10)
+TYPEOF_ALL = frozenset(("string", "number", "boolean", "bigint", "undefined", "object", "function", "symbol"))
+# `${x}` / "" + x / [x].join() call ToString: a symbol throws a TypeError, an object runs user code (toString /
+# Symbol.toPrimitive) or throws for a null-prototype object
+TYPEOF_SAFE_TO_STRING = frozenset(("string", "number", "boolean", "bigint", "undefined", "function"))
+
+
+def typeof_domain(fn, node, name):
+    """the `typeof` values the identifier `name` can have when `node` executes inside fn, as far as the enclosing /
+    preceding tests on `typeof name` (if / ?: / early-leaving guards, and `switch (typeof name)` cases) tell"""
+    dom = set(TYPEOF_ALL)
+    for a_, v_ in known_atoms(fn, node).items():
+        m = re.match(r"^\(?typeof %s\s*(===|==|!==|!=)\s*[\"']([a-z]+)[\"']\)?$" % re.escape(name), a_.strip())
+        if not m:
+            m2 = re.match(r"^\(?[\"']([a-z]+)[\"']\s*(===|==|!==|!=)\s*typeof %s\)?$" % re.escape(name), a_.strip())
+            if m2:
+                op, lit = m2.group(2), m2.group(1)
+            else:
+                continue
+        else:
+            op, lit = m.group(1), m.group(2)
+        eq = op in ("===", "==")
+        if eq == bool(v_):
+            dom &= {lit}
+        else:
+            dom.discard(lit)
+    # switch (typeof name)
+    for sw in walk(fn):
+        if sw.get("type") != "SwitchStatement" or s(unparen(sw["discriminant"])).replace(" ", "") != ("typeof%s" % name):
+            continue
+        cases = sw["cases"]
+        lits = [unparen(c["test"]).get("value") if c.get("test") is not None else None for c in cases]
+        for i, c in enumerate(cases):
+            if not any(x is node for st in c["consequent"] for x in walk(st)):
+                continue
+            here = set()
+            # cases that fall through into this one (no statement that leaves)
+            j = i
+            while True:
+                here |= ({lits[j]} if lits[j] is not None else set(TYPEOF_ALL) - {l for l in lits if l is not None})
+                if j == 0:
+                    break
+                prev = cases[j - 1]["consequent"]
+                if any(x["type"] in ("ReturnStatement", "ThrowStatement", "BreakStatement", "ContinueStatement") for st in prev for x in walk(st)):
+                    break
+                j -= 1
+            dom &= here
+    return dom
+
+
+def unknown_typed_names(fn):
+    """parameters / locals of fn declared `unknown` or `any`"""
+    out = set()
+    for p in fn.get("params", []):
+        pat = p.get("pat", p)
+        if pat.get("type") == "Identifier":
+            t = tsast.type_str((pat.get("typeAnnotation") or {}).get("typeAnnotation"))
+            if t in ("unknown", "any"):
+                out.add(pat["value"])
+    return out
+
+
+def implicit_to_string_sites(fn, names):
+    """(node, identifier name, how) for every implicit ToString of one of `names` inside fn"""
+    for n in walk(fn):
+        t = n.get("type")
+        if t == "TemplateLiteral":
+            for e in n.get("expressions") or []:
+                e = unparen(e)
+                if e.get("type") == "Identifier" and e["value"] in names:
+                    yield n, e["value"], "`${%s}`" % e["value"]
+        elif t == "BinaryExpression" and n.get("operator") == "+":
+            l, r = unparen(n["left"]), unparen(n["right"])
+            for a, b in ((l, r), (r, l)):
+                if a.get("type") == "Identifier" and a["value"] in names and b.get("type") in ("StringLiteral", "TemplateLiteral"):
+                    yield n, a["value"], "%s + <string>" % a["value"]
+        elif t == "AssignmentExpression" and n.get("operator") == "+=":
+            r = unparen(n["right"])
+            if r.get("type") == "Identifier" and r["value"] in names:
+                yield n, r["value"], "<string> += %s" % r["value"]
+
+
+def implicit_to_string_rule(cx, rep, rid, files=("packages/beff-client/src/err.ts", "packages/beff-client/src/codegen-v2.ts")):
+    """No input whatsoever makes safeParse / parse / printErrors throw anything but the documented failure error.
+    An implicit string conversion - `${x}`, x + "..", s += x - of a value of UNKNOWN type throws a TypeError for a
+    symbol and runs (possibly throwing) user code for an object; `String(x)` is the total conversion for symbols.
+    Decided for every function of the error-rendering module and of the runtime whose parameter is declared
+    `unknown` / `any`: at each implicit conversion of that parameter the enclosing `typeof` tests (if / ?: / guards
+    that leave / switch cases) leave only string, number, boolean, bigint, undefined or function."""
+    n_sites = 0
+    for rel in files:
+        mod = cx.ts(rel)
+        fns = list(mod.functions.items()) + [("%s.%s" % (cn, mn), m["function"]) for cn, c in mod.classes.items() for mn, m in c.methods.items()]
+        fns += [(vn, init) for vn, (_kind, init, _d) in mod.vars.items() if init is not None and init.get("type") in ("ArrowFunctionExpression", "FunctionExpression")]
+        for fname, fn in fns:
+            if fn.get("body") is None:
+                continue
+            names = unknown_typed_names(fn)
+            if not names:
+                continue
+            for node, nm, how in implicit_to_string_sites(fn, names):
+                n_sites += 1
+                dom = typeof_domain(fn, node, nm)
+                bad = sorted(dom - TYPEOF_SAFE_TO_STRING)
+                rep.ob(rid, "%s/%s" % (fname, how), not bad,
+                       "%s converts `%s` (declared unknown) to a string implicitly (%s) where its typeof can still be %s: ToString of a symbol throws a TypeError (and of an object may run throwing user code), so rendering a rejected value makes parse / printErrors throw something other than the documented failure error; `String(x)` is total for symbols" % (
+                           fname, nm, how, " / ".join(bad)),
+                       mod.loc(node), sample={"fn": fname, "conversion": how, "typeof_domain": sorted(dom)})
+    rep.floor(rid, "implicit string conversions of unknown-typed parameters", n_sites, 1)
